@@ -1575,7 +1575,7 @@ func main() {
 			}
 		}
 	}
-	g := &gen{rng: xvlib.NewRng(args.Seed), run: run, faultEvery: 5}
+	g := &gen{rng: xvlib.NewRng(args.Seed), run: run, faultEvery: 6}
 	thorough := args.Tier == "thorough"
 	if thorough {
 		g.faultEvery = 2
@@ -1710,7 +1710,7 @@ func main() {
 	}
 	g.tdLead, g.tdOther = "", nil
 	out.Stats.Exhaustive = false
-	out.Stats.Rule = fmt.Sprintf("chains with validator-set edits (7 variants of the new set: disjoint, shifted, grown, shrunk, one swapped, rotated, bigger) for n in %v; for every tip height from 2 blocks before the edit to 6 after it (tdpos: around the first block of the next two terms, edits 2..5 blocks before it) the candidate at tip+1 (1/3: also a competing block at tip or tip-1) is presented to the real CheckMinerMatch with 15 classes of justify certificate built from the set in force for the certified view and the other set in play; for every such tip also the candidate whose predecessor carries each of 10 rollback markers (around its height, earlier, tip+3 = the last the ledger resolves, tip+4 and far beyond = no set in force, at / below StartHeight+2 = initial set) with a quorum of the marker's set, of the other set in play and of the initial set, or, when the marker cannot be resolved, with a quorum / all members of every set a lookup could fall back to (initial, tip state, without the marker, the block's own, recorded), and the candidate whose own marker cannot be resolved (proposer = the slot's member of the initial set); plus %d+%d randomised chains (two edits, later StartHeight, the same marker choices on both blocks) and the StartHeight exemption; storage faults (xpf / tdf, 1 candidate in 5): the k-th snapshot Get / CreateSnapshot of the check fails, with a quorum of the set in force and of every set a lookup that carries on could land on (initial, tip state, block's own, recorded): nothing may be accepted; tied ballots (tdt): election records in which all nominees / the last elected and a refused nominee hold equal ballots (n = %v, three variants), each check evaluated %d times on the cached and on fresh instances: same verdict every time, judged against the address-ordered tie-break; every op line is a case", sizes, rounds, tdRounds, tieSizes, reps)
+	out.Stats.Rule = fmt.Sprintf("chains with validator-set edits (7 variants of the new set: disjoint, shifted, grown, shrunk, one swapped, rotated, bigger) for n in %v; for every tip height from 2 blocks before the edit to 6 after it (tdpos: around the first block of the next two terms, edits 2..5 blocks before it) the candidate at tip+1 (1/3: also a competing block at tip or tip-1) is presented to the real CheckMinerMatch with 15 classes of justify certificate built from the set in force for the certified view and the other set in play; for every such tip also the candidate whose predecessor carries each of 10 rollback markers (around its height, earlier, tip+3 = the last the ledger resolves, tip+4 and far beyond = no set in force, at / below StartHeight+2 = initial set) with a quorum of the marker's set, of the other set in play and of the initial set, or, when the marker cannot be resolved, with a quorum / all members of every set a lookup could fall back to (initial, tip state, without the marker, the block's own, recorded), and the candidate whose own marker cannot be resolved (proposer = the slot's member of the initial set); plus %d+%d randomised chains (two edits, later StartHeight, the same marker choices on both blocks) and the StartHeight exemption; storage faults (xpf / tdf, 1 candidate in 6): the k-th snapshot Get / CreateSnapshot of the check fails, with a quorum of the set in force and of every set a lookup that carries on could land on (initial, tip state, block's own, recorded): nothing may be accepted; tied ballots (tdt): election records in which all nominees / the last elected and a refused nominee hold equal ballots (n = %v, three variants), each check evaluated %d times on the cached and on fresh instances: same verdict every time, judged against the address-ordered tie-break; every op line is a case", sizes, rounds, tdRounds, tieSizes, reps)
 }
 
 func maxi(a, b int64) int64 {
